@@ -37,6 +37,9 @@ type FieldT struct {
 	// Embed: an embedded struct (or pointer to struct) without json tag — encoding/json promotes its
 	// fields to the enclosing object, so they occur in the body (and in presence) without a prefix
 	Embed bool `json:",omitempty"`
+	// TagForm: 0 json:"name"; 1 json:"name,omitempty"; 2 json:",omitempty" and 3 no json tag at all —
+	// in both the JSON name is the Go field name, which is then what JSON says
+	TagForm int `json:",omitempty"`
 }
 
 // TypeT describes a struct type; the Go field names are F0, F1, ….
@@ -71,6 +74,10 @@ func (t *TypeT) reflectType() reflect.Type {
 			ft = reflect.SliceOf(f.Sub.reflectType())
 		case "map":
 			ft = reflect.TypeOf(map[string]string{})
+		case "astring":
+			ft = reflect.TypeOf([2]string{})
+		case "spstruct":
+			ft = reflect.SliceOf(reflect.PointerTo(f.Sub.reflectType()))
 		case "sany":
 			ft = reflect.TypeOf([]any{})
 		case "many":
@@ -79,9 +86,18 @@ func (t *TypeT) reflectType() reflect.Type {
 			panic("kind " + f.Kind)
 		}
 		tag := `json:"` + f.JSON + `"`
+		switch f.TagForm {
+		case 1:
+			tag = `json:"` + f.JSON + `,omitempty"`
+		case 2:
+			tag = `json:",omitempty"`
+		case 3:
+			tag = ``
+		}
 		if f.Tag != "" {
 			tag += ` validate:"` + f.Tag + `"`
 		}
+		tag = strings.TrimSpace(tag)
 		if f.Embed {
 			fs[i] = reflect.StructField{Name: "E" + strconv.Itoa(i), Type: ft, Anonymous: true}
 			continue
@@ -282,6 +298,8 @@ var tagsFor = map[string][]string{
 	"pstruct":  {"", "required", "omitempty"},
 	"sstring":  {"", "min=1", "max=2", "required", "dive,min=3", "min=1,dive,required", "omitempty,dive,max=4", "min=2", "dive,oneof=red green"},
 	"ssstring": {"", "dive,dive,min=2", "min=1,dive,max=1,dive,max=3", "dive,min=1"},
+	"astring":  {"", "dive,min=3", "dive,required", "required"},
+	"spstruct": {"", "max=1", "dive", "required,dive", "min=1", "dive,required"},
 	"sany":     {"", "max=1", "min=1", "required", "omitempty,max=2"},
 	"many":     {"", "max=1", "min=1", "required"},
 	"sint":     {"", "dive,min=5", "max=3", "min=1,dive,max=9"},
@@ -289,7 +307,7 @@ var tagsFor = map[string][]string{
 	"map":      {"", "min=1", "required"},
 }
 
-var kinds = []string{"string", "string", "string", "int", "int", "bool", "pstring", "struct", "struct", "pstruct", "sstring", "sstring", "ssstring", "sint", "sstruct", "sstruct", "map", "sany", "many"}
+var kinds = []string{"string", "string", "string", "int", "int", "bool", "pstring", "struct", "struct", "pstruct", "sstring", "sstring", "ssstring", "sint", "sstruct", "sstruct", "map", "sany", "many", "astring", "spstruct"}
 
 func genType(r *hx.Rand, depth int) *TypeT {
 	return genTypeIn(r, depth, map[string]bool{}, depth < 2 && r.Chance(1, 3))
@@ -322,10 +340,21 @@ func genTypeIn(r *hx.Rand, depth int, used map[string]bool, embeds bool) *TypeT 
 			break
 		}
 		k := hx.Pick(r, kinds)
-		if depth >= 3 && (k == "struct" || k == "pstruct" || k == "sstruct") {
+		if depth >= 3 && (k == "struct" || k == "pstruct" || k == "sstruct" || k == "spstruct") {
 			k = "string"
 		}
 		f := FieldT{JSON: name, Kind: k, Tag: hx.Pick(r, tagsFor[k])}
+		if r.Chance(1, 6) {
+			f.TagForm = r.Range(1, 3)
+			if f.TagForm >= 2 {
+				// the JSON name is the Go field name: F<index>
+				f.JSON = "F" + strconv.Itoa(len(t.Fields))
+				if used[key(f.JSON)] {
+					f.TagForm, f.JSON = 1, name
+				}
+			}
+		}
+		name = f.JSON
 		switch {
 		case embeds && (k == "struct" || k == "pstruct") && r.Chance(1, 2):
 			// embedded: its fields live in this struct's JSON object
@@ -341,7 +370,7 @@ func genTypeIn(r *hx.Rand, depth int, used map[string]bool, embeds bool) *TypeT 
 					f.Sub.Fields = append(f.Sub.Fields, FieldT{JSON: own.JSON, Kind: "string", Tag: hx.Pick(r, tagsFor["string"])})
 				}
 			}
-		case k == "struct" || k == "pstruct" || k == "sstruct":
+		case k == "struct" || k == "pstruct" || k == "sstruct" || k == "spstruct":
 			used[key(name)] = true
 			f.Sub = genType(r, depth+1)
 		default:
@@ -422,11 +451,21 @@ func genValue(r *hx.Rand, f FieldT, depth int) any {
 			out[i] = hx.Pick(r, []int{0, 3, 5, 9, 10, 77})
 		}
 		return out
-	case "sstruct":
+	case "sstruct", "spstruct":
 		n := r.Range(0, 3)
 		out := make([]any, n)
 		for i := range out {
 			out[i] = genObject(r, f.Sub, depth+1)
+			if f.Kind == "spstruct" && r.Chance(1, 4) {
+				out[i] = nil // a nil pointer in the middle of a path
+			}
+		}
+		return out
+	case "astring":
+		n := r.Range(0, 3) // the third element does not fit into [2]string: present in the body, absent in the value
+		out := make([]any, n)
+		for i := range out {
+			out[i] = secret(r, hx.Pick(r, []int{0, 1, 2, 3, 5, 6}))
 		}
 		return out
 	case "map":
@@ -510,7 +549,7 @@ func genObject(r *hx.Rand, t *TypeT, depth int) objT {
 		}
 		o = append(o, kv{key, genValue(r, f, depth)})
 		// siblings that sort between the parent and its children
-		if (f.Kind == "struct" || f.Kind == "pstruct" || f.Kind == "sstruct" || f.Kind == "sstring" || f.Kind == "map" || f.Kind == "sany" || f.Kind == "many") && r.Chance(1, 2) {
+		if (f.Kind == "struct" || f.Kind == "pstruct" || f.Kind == "sstruct" || f.Kind == "sstring" || f.Kind == "map" || f.Kind == "sany" || f.Kind == "many" || f.Kind == "spstruct" || f.Kind == "astring") && r.Chance(1, 2) {
 			for n := r.Range(1, 2); n > 0; n-- {
 				o = append(o, kv{f.JSON + hx.Pick(r, lowSuffix), genJunk(r, depth+2)})
 			}
@@ -1125,7 +1164,8 @@ func observe(c *caseT, rt reflect.Type, secrets []string) (o obsT) {
 		case c.Mode == 0 && c.ViaApp:
 			// the whole path of a PATCH handler: bind the body, presence from the raw body, partial validation
 			req := httptest.NewRequest("PATCH", "/c05", bytes.NewReader(body))
-			req.Header.Set("Content-Type", "application/json")
+			req.Header.Set("Content-Type", []string{"application/json", "application/json; charset=utf-8", "application/merge-patch+json",
+				"Application/JSON", "application/merge-patch+json; charset=utf-8"}[len(c.Body)%5])
 			ran := false
 			appHandler = func(ac *app.Context) {
 				ran = true
@@ -1332,6 +1372,18 @@ func emit(id string, c caseT, st *hx.Stats) string {
 	ptr := reflect.New(rt)
 	if uerr := json.Unmarshal([]byte(c.Body), ptr.Interface()); uerr != nil && c.ViaApp {
 		c.ViaApp = false // binding refuses the body before validation: this case goes to the validator directly
+	}
+	if c.ViaApp && c.T != nil {
+		// app.Context.Bind reads a JSON body only into structs that declare a json tag somewhere at the top
+		tagged := false
+		for _, f := range c.T.Fields {
+			if !f.Embed && f.TagForm != 3 {
+				tagged = true
+			}
+		}
+		if !tagged {
+			c.ViaApp = false
+		}
 	}
 	root := ptr.Elem()
 
@@ -1622,6 +1674,8 @@ func fixedCases() []caseT {
 		{Body: `{"id":"x","kind":"zzz","name":"n","token":"q9_short"}`, Named: "FullE", Mode: 1, Redact: []string{"token", "id"}},                                          // K05h (full)
 		{Body: `{"users":[{"name":"al","password":"q7_hunter2x"},{"name":"bo","password":"q8_s3cretxx"}]}`, Named: "FullU", Mode: 1, Redact: []string{"users.1.password"}}, // container value, unexported embedded struct
 		{Body: `{"owner":{"name":"a","password":"short","pin":"12"}}`, Named: "FullU", Mode: 0},
+		{Body: `{"F0":"ab","F1":"x"}`, T: &TypeT{Fields: []FieldT{{JSON: "F0", Kind: "string", Tag: "min=3", TagForm: 2}, {JSON: "F1", Kind: "string", Tag: "min=3", TagForm: 3}}}},                                        // K05j
+		{Body: `{"F0":"ab","F1":"x"}`, T: &TypeT{Fields: []FieldT{{JSON: "F0", Kind: "string", Tag: "min=3", TagForm: 2}, {JSON: "F1", Kind: "string", Tag: "min=3", TagForm: 3}}}, Mode: 1},                               // K05j (full)
 		{Body: `{"1":"abc","2":{"3":"x"}}`, T: &TypeT{Fields: []FieldT{{JSON: "1", Kind: "string", Tag: "email"}, {JSON: "2", Kind: "struct", Sub: &TypeT{Fields: []FieldT{{JSON: "3", Kind: "string", Tag: "min=2"}}}}}}}, // K05d
 	}
 }
